@@ -97,6 +97,7 @@ THEOREMS = [
     "OllamaVerif.C14.empty_stop_streams_nothing",
     "OllamaVerif.C14.cacheLen_in_range",
     "OllamaVerif.C14.cache_reslice_in_range",
+    "OllamaVerif.C14.cacheLenRun_isSome_iff",
 ]
 # Model variant the oracle is asked to run: 1 = first listed stop (finding F7, fixed in /repo 6e9857ebf), 0 = earliest
 # occurrence.  NOT a constant any more: decided on every run by executing the real FindStop (regenerate_variant), and
